@@ -105,13 +105,17 @@ impl Table {
         )
     }
     fn from_json(v: &Value) -> Option<Table> {
+        Table::from_json_with(v, false)
+    }
+    /// `dups`: a rule may be declared more than once (the tables of the re-declaration family).
+    fn from_json_with(v: &Value, dups: bool) -> Option<Table> {
         let mut levels = vec![];
         let mut seen = [false; NOPS];
         for l in v.as_array()? {
             let mut lv = vec![];
             for o in l.as_array()? {
                 let r = o["rule"].as_u64()? as usize;
-                if r >= NOPS || seen[r] {
+                if r >= NOPS || (seen[r] && !dups) {
                     return None;
                 }
                 seen[r] = true;
@@ -594,6 +598,9 @@ struct Parsers<'s> {
     konst: Box<dyn TreeBuilder>,
     konst_padded: Option<(Box<dyn TreeBuilder>, Value)>,
     konst_static: Option<&'s dyn TreeBuilder>,
+    /// the same table written with some rules declared twice (an earlier declaration with another
+    /// kind/level that the later one overrides): PrattParser and ConstPrattParser built from it
+    redeclared: Option<(PrattParser<R>, Box<dyn TreeBuilder>, Value)>,
     #[allow(deprecated)]
     climber: Option<pest::prec_climber::PrecClimber<R>>,
 }
@@ -605,6 +612,7 @@ impl<'s> Parsers<'s> {
             konst: build_const(&t.levels),
             konst_padded: None,
             konst_static: None,
+            redeclared: None,
             climber: if t.climber_ok() { Some(build_climber(t)) } else { None },
         }
     }
@@ -626,6 +634,8 @@ struct Tally {
     ran_const: u64,
     ran_const_padded: u64,
     ran_const_static: u64,
+    ran_redeclared: u64,
+    redeclared_differs_from_last_wins: u64,
     ran_climber: u64,
     nontrivial: u64,
     len_hist: [u64; 5],
@@ -652,6 +662,8 @@ impl Tally {
         rep.add("parser:ConstPrattParser", self.ran_const);
         rep.add("parser:ConstPrattParser_padded", self.ran_const_padded);
         rep.add("parser:ConstPrattParser_static_macro", self.ran_const_static);
+        rep.add("parser:PrattParser_vs_ConstPrattParser_on_table_with_redeclared_rules", self.ran_redeclared);
+        rep.add("redeclared_tables_where_both_parsers_agree_but_not_last_declaration_wins", self.redeclared_differs_from_last_wins);
         rep.add("parser:PrecClimber", self.ran_climber);
         rep.add("nontrivial_cases", self.nontrivial);
         rep.notes.insert("max_tree_depth_this_shard".into(), json!(self.max_depth));
@@ -739,6 +751,31 @@ fn check_case(rep: &mut Report, tally: &mut Tally, table: &Table, lk: &[Option<(
                     rep.violation(witness(table, toks, name, json!(expected.to_string(toks)), json!(tree.to_string(toks)), extra));
                 }
             }
+        }
+    }
+    // a table in which rules are declared twice: the statement does not say which declaration
+    // counts, only that ConstPrattParser gives the same tree as PrattParser for the same table
+    if let Some((p, k, desc)) = &ps.redeclared {
+        tally.ran_redeclared += 1;
+        let run = |parser: &dyn TreeBuilder| {
+            let ctx = Ctx { toks, ordinal: &ordinal[..toks.len()], bad_pair: Cell::new(None) };
+            catch_unwind(AssertUnwindSafe(|| parser.build(&ctx, pairs.clone()))).map_err(|p| {
+                p.downcast_ref::<String>().cloned().or_else(|| p.downcast_ref::<&str>().map(|s| s.to_string())).unwrap_or_default()
+            })
+        };
+        let a = run(p);
+        let b = run(&**k);
+        let show = |r: &Result<T, String>| match r {
+            Ok(t) => json!(t.to_string(toks)),
+            Err(m) => json!({"panic": m}),
+        };
+        if a != b {
+            let mut w = witness(table, toks, "ConstPrattParser vs PrattParser (table with re-declared rules)", show(&a), show(&b), None);
+            w["table_with_redeclarations"] = desc.clone();
+            w["expected_is"] = json!("PrattParser's tree for table_with_redeclarations; observed = ConstPrattParser's tree for the same table");
+            rep.violation(w);
+        } else if a.as_ref().ok() != Some(&expected) {
+            tally.redeclared_differs_from_last_wins += 1;
         }
     }
     // evidence
@@ -1020,6 +1057,51 @@ fn padded_levels(t: &Table, rng: &mut Rng, n_total: usize) -> Vec<Vec<(usize, Ki
     levels
 }
 
+/// Same table with 1..=3 of its rules declared a second time, earlier (a lower level, or earlier in
+/// the same level) and with another kind, so that the original declaration is the later one.
+fn redeclared_levels(t: &Table, rng: &mut Rng) -> Vec<Vec<(usize, Kind)>> {
+    let mut levels = t.levels.clone();
+    let n_extra = (1 + rng.below(3)).min(NOPS - t.n_ops());
+    for _ in 0..n_extra {
+        // pick a declaration of the original table
+        let li = rng.below(levels.len());
+        let candidates: Vec<usize> = (0..levels[li].len()).filter(|j| t.levels.iter().flatten().any(|x| x.0 == levels[li][*j].0)).collect();
+        if candidates.is_empty() {
+            continue;
+        }
+        let j = *rng.pick(&candidates);
+        let (r, k) = levels[li][j];
+        let other = KINDS[(k as usize + 1 + rng.below(3)) % 4];
+        match rng.below(3) {
+            // earlier in the same level (same precedence, other kind)
+            0 => levels[li].insert(rng.below(j + 1), (r, other)),
+            // appended to a lower level
+            1 if li > 0 => {
+                let lo = rng.below(li);
+                let at = rng.below(levels[lo].len() + 1);
+                levels[lo].insert(at, (r, if rng.chance(1, 2) { k } else { other }));
+            }
+            // a new lowest level
+            _ => levels.insert(0, vec![(r, if rng.chance(1, 2) { k } else { other })]),
+        }
+    }
+    levels
+}
+
+fn build_pratt_levels(levels: &[Vec<(usize, Kind)>]) -> PrattParser<R> {
+    let mut p = PrattParser::new();
+    for l in levels {
+        let mut it = l.iter();
+        let (r, k) = it.next().unwrap();
+        let mut op = op_of(*r, *k);
+        for (r, k) in it {
+            op = op | op_of(*r, *k);
+        }
+        p = p.op(op);
+    }
+    p
+}
+
 fn gen_sequence(rng: &mut Rng, table: &Table, out: &mut Vec<i8>) {
     out.clear();
     let mut pre = vec![];
@@ -1099,6 +1181,14 @@ fn run_random(args: &Args, rep: &mut Report, tally: &mut Tally) {
             let desc = Table { levels: lv.clone() }.to_json();
             ps.konst_padded = Some((build_const(&lv), desc));
         }
+        if table.n_ops() < NOPS && trng.chance(1, 5) {
+            let lv = redeclared_levels(&table, &mut trng);
+            if lv.iter().map(|l| l.len()).sum::<usize>() > table.n_ops() {
+                let desc = Table { levels: lv.clone() }.to_json();
+                ps.redeclared = Some((build_pratt_levels(&lv), build_const(&lv), desc));
+                rep.count("random_tables_with_redeclared_rules");
+            }
+        }
         for _ in 0..PER_TABLE.min(budget - done) {
             gen_sequence(&mut trng, &table, &mut toks);
             check_case(rep, tally, &table, &lk, &ps, &toks, "random");
@@ -1132,6 +1222,12 @@ fn replay(rep: &mut Report, tally: &mut Tally, path: &std::path::Path) {
         if padded.n_ops() <= NOPS {
             let desc = padded.to_json();
             ps.konst_padded = Some((build_const(&padded.levels), desc));
+        }
+    }
+    if let Some(rd) = Table::from_json_with(&w["table_with_redeclarations"], true) {
+        if rd.levels.iter().map(|l| l.len()).sum::<usize>() <= NOPS {
+            let desc = rd.to_json();
+            ps.redeclared = Some((build_pratt_levels(&rd.levels), build_const(&rd.levels), desc));
         }
     }
     let stat = statics::all().into_iter().find(|(t, _)| *t == table).map(|(_, s)| s);
